@@ -375,6 +375,9 @@ def DECIMAL(text, base):
         return error.VALUE
 
 
+BASE_DIGITS = '0123456789ABCDEFGHIJKLMNOPQRSTUVWXYZ'
+
+
 @dispatcher.register_for('BASE')
 def BASE(value, base, places=DEFAULT):
     value = utils.parse_number(value)
@@ -399,7 +402,7 @@ def BASE(value, base, places=DEFAULT):
     while value:
         digits.append(int(value % base))
         value //= base
-    result = ''.join(str(n) for n in digits[::-1])
+    result = ''.join(BASE_DIGITS[n] for n in digits[::-1])
     if places is not DEFAULT:
         if len(result) > places:
             return error.NUM
